@@ -1,4 +1,4 @@
-/* TRUSTED: p_error_set_error_p (abstract) -- records the reported code in ghost g_err_code/g_err_native and counts calls; the PError object itself is not built (perror.c is verified in C18/C20 units) */
+/* TRUSTED: p_error_set_error_p (abstract) -- records the FIRST reported code in ghost g_err_code/g_err_native (the real function keeps the first error too) and counts calls; the PError object itself is not built (perror.c is verified in C18/C20 units) */
 #ifndef VERIF_ENV_PERROR_STUB_C
 #define VERIF_ENV_PERROR_STUB_C
 #include "env/verif.h"
@@ -8,6 +8,7 @@ unsigned g_err_calls;
 void p_error_set_error_p (PError **error, pint code, pint native_code, const pchar *message)
 {
 	(void) error; (void) message;
-	g_err_code = code; g_err_native = native_code; g_err_calls++;
+	if (g_err_calls == 0) { g_err_code = code; g_err_native = native_code; }   /* the first error is the one the caller sees */
+	g_err_calls++;
 }
 #endif
